@@ -51,6 +51,8 @@ pub struct World {
     pub script2: Vec<Vec<u64>>,
     /// alternative edge data (loop-momentum offsets: same signature, different shifts) per history sampler
     pub alt_ed: Vec<EdgeData<f64>>,
+    /// the history samplers' edge data with the other mass pattern: massless edges get a (negative) mass, massive ones none
+    pub alt_masses: Vec<EdgeData<f64>>,
 }
 
 pub fn world() -> World {
@@ -124,7 +126,21 @@ pub fn world() -> World {
             (0..ko.sig.len()).map(|e| (ko.masses[e].as_ref().map(q_exact_f64), ko.shifts[e].iter().map(q_exact_f64).collect())).collect()
         })
         .collect();
-    World { cases: vec![ca, cb, cc], alt_cases: vec![ca2, cb2], alt_kins, kins, points, script, script2, alt_ed }
+    let alt_masses: Vec<EdgeData<f64>> = (0..2)
+        .map(|i| {
+            let k = &kins[i];
+            (0..k.sig.len())
+                .map(|e| {
+                    let m = match &k.masses[e] {
+                        Some(_) => None,
+                        None => Some(if e % 2 == 0 { -0.75 } else { 1.25 }),
+                    };
+                    (m, k.shifts[e].iter().map(q_exact_f64).collect())
+                })
+                .collect()
+        })
+        .collect();
+    World { cases: vec![ca, cb, cc], alt_cases: vec![ca2, cb2], alt_kins, kins, points, script, script2, alt_ed, alt_masses }
 }
 
 pub const SETTINGS8: [Settings; 8] = [
@@ -146,6 +162,10 @@ pub enum Op {
     FromRng { s: usize },
     /// scripted generator that returns exact zeros on the Box-Muller radius positions
     FromRngZeros { s: usize },
+    /// the same sampler and point, edge data with the OTHER mass pattern (None <-> Some(m)) and signed masses
+    SampleMasses { s: usize },
+    /// generate_sample_from_rng with a stability test that always fails: Err(Unstable) after exactly get_dimension() draws
+    FromRngUnstable { s: usize },
     CloneS { s: usize },
     GetDim { s: usize },
     Json { s: usize },
@@ -166,6 +186,8 @@ pub fn op_alphabet() -> Vec<Op> {
         v.push(Op::SampleAlt { s });
         v.push(Op::FromRng { s });
         v.push(Op::FromRngZeros { s });
+        v.push(Op::SampleMasses { s });
+        v.push(Op::FromRngUnstable { s });
         v.push(Op::CloneS { s });
         v.push(Op::GetDim { s });
         v.push(Op::Json { s });
@@ -194,6 +216,21 @@ pub fn apply(w: &World, rs: &mut Vec<Routed>, op: Op) -> Vec<u64> {
             Ok(b) => b,
             Err(e) => vec![u64::MAX, fnv(&e)],
         },
+        Op::SampleMasses { s } => match outcome_bits(&rs[s].sampler.sample_with(&w.points[s][0], &w.alt_masses[s], &Settings::META, &NullLogger)) {
+            Ok(b) => b,
+            Err(e) => vec![u64::MAX, fnv(&e)],
+        },
+        Op::FromRngUnstable { s } => {
+            let mut rng = Scripted { vals: w.script[s].clone(), pos: 0 };
+            let st = Settings { stability: Some(-1.0), debug: false, metadata: true };
+            let o = rs[s].sampler.sample_rng(&rs[s].ed, &st, &mut rng, &NullLogger);
+            let mut b = match outcome_bits(&o) {
+                Ok(b) => b,
+                Err(e) => vec![u64::MAX, fnv(&e)],
+            };
+            b.push(rng.pos as u64);
+            b
+        }
         Op::FromRng { s } | Op::FromRngZeros { s } => {
             let vals = if matches!(op, Op::FromRngZeros { .. }) { w.script2[s].clone() } else { w.script[s].clone() };
             let mut rng = Scripted { vals, pos: 0 };
@@ -324,6 +361,24 @@ pub fn run_histories(ctx: &Ctx, acc: &mut Acc) {
             };
             if direct[..] != r[..r.len() - 1] {
                 acc.violate(format!("C17/from_rng-equals-x-space/{s}/{idx}"), "from_rng returns what from_x_space_point returns for those numbers", format!("sampler {s}, script {:?}: results differ", op), hist_case(&[idx]));
+            }
+        }
+        // with a stability test that fails, from_rng still draws exactly get_dimension() numbers and reports the error of
+        // the x-space entry point for those numbers (no silent redraw)
+        {
+            let idx = alpha.iter().position(|o| *o == Op::FromRngUnstable { s }).unwrap();
+            let r = &refs[idx];
+            let draws = *r.last().unwrap();
+            let dim = fresh(&w)[s].sampler.get_dimension().unwrap_or(0) as u64;
+            let x: Vec<f64> = w.script[s].iter().take(dim as usize).map(|&v| u64_to_unit(v)).collect();
+            let rs = fresh(&w);
+            let st = Settings { stability: Some(-1.0), debug: false, metadata: true };
+            let direct = match outcome_bits(&rs[s].sampler.sample(&x, &rs[s].ed, &st)) {
+                Ok(b) => b,
+                Err(e) => vec![u64::MAX, fnv(&e)],
+            };
+            if draws != dim || direct[..] != r[..r.len() - 1] {
+                acc.violate(format!("C17/from_rng-with-failing-stability-test/{s}/{idx}"), "generate_sample_from_rng draws exactly get_dimension() numbers and returns what from_x_space_point returns for those numbers", format!("sampler {s}, matrix_stability_test = Some(-1): {draws} draws (get_dimension() = {dim}); same outcome as the x-space entry: {}", direct[..] == r[..r.len() - 1]), hist_case(&[idx]));
             }
         }
         // metadata / debug / stability(inf) do not change the numerical result
@@ -700,7 +755,7 @@ pub fn run_c17(ctx: &Ctx) -> i32 {
     extra.insert("source_scan_global_state_candidates(assumption only)".into(), json!(scan));
     let fin = Finish {
         level: "model_checking",
-        rule: format!("(histories) all sequences up to depth {} over a 64-operation alphabet on two samplers (sample x 8 settings x 3 points incl. u = 1-2^-53, sample with different edge data, from_rng with two scripted RngCores incl. exact zeros, clone, get_dimension, JSON and CBOR round trips, in-place rebuild of a different sampler with the same edge count), each re-executed on freshly built samplers and compared bit-for-bit with the same call made first on a fresh sampler, serialisations compared after every step; (schedules) all interleavings of 2-3 real OS threads sharing a sampler with at most p preemptions, scheduling points = every scalar operation, under an own baton scheduler with DFS over schedules, a planted impurity must be caught first; (configurations) all E! hash iteration orders; child processes; a corpus of samples through a second build of momtrop without any cargo feature. states = histories + schedules, transitions = operations + scheduling decisions", ctx.tier.pick(3, 4)),
+        rule: format!("(histories) all sequences up to depth {} over a 68-operation alphabet on two samplers (sample x 8 settings x 3 points incl. u = 1-2^-53, sample with different edge data, sample with the other mass pattern (None <-> Some, signed), from_rng with two scripted RngCores incl. exact zeros, from_rng under a stability test that always fails, clone, get_dimension, JSON and CBOR round trips, in-place rebuild of a different sampler with the same edge count), each re-executed on freshly built samplers and compared bit-for-bit with the same call made first on a fresh sampler, serialisations compared after every step; (schedules) all interleavings of 2-3 real OS threads sharing a sampler with at most p preemptions, scheduling points = every scalar operation, under an own baton scheduler with DFS over schedules, a planted impurity must be caught first; (configurations) all E! hash iteration orders; child processes; a corpus of samples through a second build of momtrop without any cargo feature. states = histories + schedules, transitions = operations + scheduling decisions", ctx.tier.pick(3, 4)),
         states: acc.get("histories") + acc.get("schedules"),
         transitions: acc.get("operations") + acc.get("schedules"),
         traces: acc.get("histories") + acc.get("schedules"),
